@@ -27,6 +27,8 @@ ap.add_argument("--per-file", type=int, default=12)
 ap.add_argument("--files", default="")
 ap.add_argument("--seed", type=int, default=1)
 ap.add_argument("--all-checks", action="store_true", help="run every check on survivors of the anchored ones")
+ap.add_argument("--retest-survivors", action="store_true", help="only re-run the recorded SURVIVED mutants (with --all-checks: against all checks)")
+ap.add_argument("--only", default="", help="comma separated mutant keys to (re)run")
 args = ap.parse_args()
 
 def env(extra=None):
@@ -83,9 +85,19 @@ for f in files:
                 pick.append(bykind[k].pop())
     for s in pick:
         work.append((f, s))
+results = json.load(open(OUT)) if os.path.exists(OUT) else {}
+if args.retest_survivors or args.only:
+    want = set(k for k, r in results.items() if r["status"] == "SURVIVED") if args.retest_survivors else set(args.only.split(","))
+    work = []
+    for key in sorted(want):
+        f, idx = key.rsplit("#", 1)
+        rc, out = sh([mutator, "list", "/repo/" + f])
+        sites = [json.loads(x) for x in out.splitlines() if x.startswith("{")]
+        work.append((f, sites[int(idx)]))
+        anch.setdefault(f, [])
+        results.pop(key, None)
 print("files %d, mutants %d" % (len(files), len(work)), flush=True)
 
-results = json.load(open(OUT)) if os.path.exists(OUT) else {}
 lock = threading.Lock()
 queue = collections.deque(work)
 
